@@ -32,6 +32,7 @@ CORE_WRAPPERS = [
     ("box_dyn", "let w: Box<dyn Collect + Send + Sync> = Box::new(r); let inner = addr(&*w);"),
 ]
 KNOWN_CORE = {}
+DISPATCH_METHODS = ["register_callsite", "max_level_hint", "new_span", "record", "record_follows_from", "enabled", "enter", "exit", "clone_span", "drop_span", "try_close", "current_span"]
 
 
 def gen_core(repo):
@@ -41,6 +42,12 @@ def gen_core(repo):
         for m in ms:
             out.append("#[kani::proof]\n#[kani::unwind(18)]\n#[kani::stub(core::fmt::Formatter::pad, pad_stub)]\n"
                        "fn c09_core_%s_%s() { let r = Rec::any(); %s cell!(%s, w, r, inner); }" % (wn, m, mk, m))
+    # Dispatch itself is a pass-through handle: its inherent methods of the same name forward to the collector it holds
+    # (Dispatch::event is `event_enabled` then `event` and has a hand-written cell in core_matrix.kani.rs)
+    for m in ms:
+        if m in DISPATCH_METHODS:
+            out.append("#[kani::proof]\n#[kani::unwind(18)]\n#[kani::stub(core::fmt::Formatter::pad, pad_stub)]\n"
+                       "fn c09_core_dispatch_%s() { let r = Rec::any(); let w = Dispatch::__verif_unregistered(r); let inner = 0usize; cell!(%s, w, r, inner); core::mem::forget(w); }" % (m, m))
     return "\n".join(out) + "\n"
 
 
@@ -96,7 +103,7 @@ PLAN = dict(
     id="C09", api_files=['tracing-subscriber/src/subscribe/layered.rs'],
     level="proof",
     explanation="Wrapper x trait-method matrix. The method lists of trait Collect, trait Subscribe and trait Filter are extracted from /repo on every run; for every (wrapper, method) one loop-free harness calls the method on the real wrapper around a recording stub and requires: the same method of the wrapped value is called exactly once and nothing else is, with the identical argument (pointer / id), and the symbolic result comes back unchanged. Wrappers: Box<C>, Arc<C>, Box<dyn Collect> (Collect); Box<S>, Box<dyn Subscribe>, Some, one-element Vec, reload::Subscriber, None / empty Vec / Identity ('as if absent'), two-element Vec (bounded), Layered of two layers (both once, inner before outer) (Subscribe); Box<dyn>, Arc<dyn>, Some, reload, None (Filter); Layered<layer, collector> as a Collect: collector before layer, veto semantics, on_close only after the collector closed. A trait method without a cell does not compile (=> undecided), so a method added later cannot be silently unforwarded.",
-    functions_under_contract=['tracing-core/src/collect.rs: impl Collect for Box<C>, Arc<C>', 'tracing-subscriber/src/subscribe/mod.rs: impl Subscribe for Option<S>, Box<S>, Box<dyn Subscribe>, Vec<S>, Identity (subscriber_impl_body!)', 'subscribe/layered.rs: impl Collect for Layered, impl Subscribe for Layered', 'reload.rs: impl Subscribe / Filter for reload::Subscriber', 'filter/subscriber_filters/mod.rs: filter_impl_body! (Box/Arc dyn Filter), impl Filter for Option<F>'],
+    functions_under_contract=['tracing-core/src/collect.rs: impl Collect for Box<C>, Arc<C>', 'tracing-core/src/dispatch.rs: Dispatch::{register_callsite,max_level_hint,new_span,record,record_follows_from,enabled,event,enter,exit,clone_span,drop_span,try_close,current_span} forward to the collector the Dispatch holds', 'tracing-subscriber/src/subscribe/mod.rs: impl Subscribe for Option<S>, Box<S>, Box<dyn Subscribe>, Vec<S>, Identity (subscriber_impl_body!)', 'subscribe/layered.rs: impl Collect for Layered, impl Subscribe for Layered', 'reload.rs: impl Subscribe / Filter for reload::Subscriber', 'filter/subscriber_filters/mod.rs: filter_impl_body! (Box/Arc dyn Filter), impl Filter for Option<F>'],
     trusted_base=["Kani 0.68 / CBMC 6.11 / CaDiCaL; Kani's std build (nightly-2026-08-21), not the repo toolchain's", 'core::fmt::Formatter::pad stubbed to Ok(()) with -Z stubbing (panic-message formatting on infeasible error branches; no harness that uses it reads formatted text)', 'Pool::clear stub (Layered::try_close mentions Registry)'],
     assumptions=["the lift from the per-node cells to stacks of any shape and depth (every layer exactly once; as many notifications of each kind as occurred) is mechanised in Verus (lemma_c09.verus.rs) over node facts that are exactly the cells: wrapper forwards once, pair forwards once to each part", "ordering clause read as applying to span/event notifications; register_callsite / on_register_dispatch / on_subscribe only 'exactly once' (the code is outer-first there by construction)", 'downcast_raw is type introspection, not a notification: it may be called additionally (Layered::try_close looks for a Registry)', 'reload::Subscriber refuses downcasts by design (documented), so that cell is excluded'],
     not_covered=["fmt::Collector (wraps the real Registry, out of Kani's reach) - its missing on_register_dispatch forwarding was repaired together with Layered's", 'Arc<S> as Subscribe does not exist in this tree'],
